@@ -358,6 +358,13 @@ func (e *Exec) selector(st *State, x *ast.SelectorExpr) Val {
 			_ = recv
 			return Val{T: IntLit(1), GT: info.TypeOf(x), Fn: &Closure{Obj: fn, Name: fn.FullName()}}
 		}
+		if sel.Kind() == types.MethodExpr {
+			// T.Method used as a function value
+			fn := sel.Obj().(*types.Func)
+			mv := e.sc.Const("methodexpr:"+fn.FullName(), SInt)
+			e.sc.Assert(Not(Eq(mv, IntLit(0))))
+			return Val{T: mv, GT: info.TypeOf(x)}
+		}
 		e.fail(x.Pos(), "unsupported selection kind")
 	}
 	// qualified identifier pkg.Name
@@ -565,6 +572,15 @@ func (e *Exec) sliceVal(st *State, base Val, lo, hi *Val, pos token.Pos, check b
 func (e *Exec) composite(st *State, x *ast.CompositeLit) Val {
 	info := e.info()
 	t := info.TypeOf(x)
+	if pt, ok := t.Underlying().(*types.Pointer); ok && x.Type == nil {
+		// elided &T{...} element of a composite literal
+		inner := e.compositeOf(st, x, pt.Elem())
+		return e.alloc(st, inner, t)
+	}
+	return e.compositeOf(st, x, t)
+}
+
+func (e *Exec) compositeOf(st *State, x *ast.CompositeLit, t types.Type) Val {
 	switch u := t.Underlying().(type) {
 	case *types.Struct:
 		s := e.sr.sortOf(t)
